@@ -168,6 +168,11 @@ CONFIGS = {
     'v7-lpae': {'arch_version': 7, 'memory_system_architecture': 'VMSA', 'have_lpae': True},
     'v7-virt': {'arch_version': 7, 'memory_system_architecture': 'VMSA', 'have_lpae': True, 'have_virt_ext': True, 'have_mp_ext': True},
     'v7-tee': {'arch_version': 7, 'have_thumbee': True},
+    # the other values of the IMPLEMENTATION DEFINED choices about HSR.CV / COND for trapped Thumb instructions
+    'v7-virt-hsr': {'arch_version': 7, 'memory_system_architecture': 'VMSA', 'have_lpae': True, 'have_virt_ext': True, 'have_mp_ext': True,
+                    'write_hsr_hsr_value_24': True, 'write_hsr_23_22_cond': False},
+    'v7-virt-hsr2': {'arch_version': 7, 'memory_system_architecture': 'VMSA', 'have_lpae': True, 'have_virt_ext': True, 'write_hsr_hsr_value_24': True, 'write_hsr_23_22_cond': True,
+                     'number_of_mpu_regions': 8, 'processor_id': 3, 'coproc_accepted_pl0_undefined': False},
     'v7-vfp': {'arch_version': 7, 'have_adv_simd_or_vfp': True},
     'v7-mp': {'arch_version': 7, 'have_mp_ext': True},
     # implementation-defined vectors at address 0 / an odd place (SCTLR.VE = 1 uses them for IRQ / FIQ; the reset vector when the configuration says so)
